@@ -8,6 +8,7 @@ import (
 	"os"
 	"path"
 	"path/filepath"
+	"strconv"
 	"strings"
 
 	"github.com/johannesboyne/gofakes3"
@@ -185,11 +186,21 @@ func isUploadTemp(name string) bool {
 // arrived and its length equals the declared size. A failed upload leaves the
 // previous object (or no object) behind.
 func writeObjectFile(fs afero.Fs, objectFilePath string, input io.Reader, size int64) (hash []byte, err error) {
-	tmp, err := afero.TempFile(fs, filepath.Dir(objectFilePath), uploadTempPrefix)
-	if err != nil {
-		return nil, err
+	// The temporary name is built here rather than taken from
+	// afero.TempFile(...).Name(): with nested BasePathFs values (as created by
+	// FsPath + MultiBucket) afero reports a name that is not valid on fs.
+	var tmp afero.File
+	var tmpName string
+	for i := 0; ; i++ {
+		tmpName = filepath.Join(filepath.Dir(objectFilePath), uploadTempPrefix+strconv.Itoa(os.Getpid())+"-"+strconv.Itoa(i))
+		tmp, err = fs.OpenFile(tmpName, os.O_RDWR|os.O_CREATE|os.O_EXCL, 0600)
+		if err == nil {
+			break
+		}
+		if !os.IsExist(err) || i > 10000 {
+			return nil, err
+		}
 	}
-	tmpName := tmp.Name()
 
 	hasher := md5.New()
 	n, err := io.Copy(io.MultiWriter(tmp, hasher), input)
